@@ -9,6 +9,7 @@ INSERT_SUBTRACTION: Default True.
 
 REPLACE_INTEGER_POWERS: Default True.
     a^5 is converted to (a*a)*(a*a)*a
+    (for powers up to MAX_REPLACED_INTEGER_POWER)
 
 REPLACE_INTEGERS_WITH_CONSTANTS: Default False
     x+x is simplified to 2*x and is converted to c*x
@@ -20,6 +21,7 @@ from .expression import Expression
 INSERT_SUBTRACTION = True
 REPLACE_INTEGER_POWERS = True
 REPLACE_INTEGERS_WITH_CONSTANTS = False
+MAX_REPLACED_INTEGER_POWER = 100
 
 NEGATIVE_ONE = Expression(INTEGER, [-1])
 SOME_BIG_INT = 1000000
@@ -107,7 +109,8 @@ def _replace_integer_powers(expression):
                            for operand in expression.operands]
 
     if operator != POWER or operands_w_replaced[1].operator != INTEGER \
-            or operands_w_replaced[1].operands[0] <= 0:
+            or operands_w_replaced[1].operands[0] <= 0 \
+            or operands_w_replaced[1].operands[0] > MAX_REPLACED_INTEGER_POWER:
         return Expression(operator, operands_w_replaced)
 
     power = operands_w_replaced[1].operands[0]
